@@ -17,11 +17,11 @@ def run(ck):
     ck.stubs += STUBS
     ck.trusted += ['Kani 0.68 / CBMC 6.11 (dev profile)', 'reduction: a clock shows fields F at u iff u + offset(u) = unix_time(F) (C01 + C02)']
     hs = [H('c05_table_n2', cap=1800, meaning='n<=2 (+fixed rule): soundness (each valid result round-trips through the forward lookup with the same type and shows the searched fields), completeness for an arbitrary instant, no duplicates, ascending, unique() iff single valid result')]
-    hs.append(H('c05_table_leap1_n2', cap=(2400 if quick else 7200), meaning='n<=2 with one leap-second record (transition times are counts on the leap-second scale; known-finding role F3 excluded)'))
+    hs.append(H('c05_table_leap1_norule_n2', cap=(1200 if quick else 7200), meaning='n<=2 with one leap-second record, no trailing rule (transition times are counts on the leap-second scale; known-finding role F3 excluded)'))
     if quick:
-        hs.append(H('c05_table_n1', cap=1500, meaning='n<=1, same assertions'))
+        pass
     else:
-        hs += [H('c05_table_n3', cap=7200, meaning='n<=3')]
+        hs += [H('c05_table_n3', cap=7200, meaning='n<=3'), H('c05_table_leap1_n2', cap=7200, required=False, meaning='n<=2 with one leap-second record and a Fixed trailing rule'), H('c05_table_n1', cap=2400, meaning='n<=1')]
     if not quick:
         hs.append(H('c05_rule_abstract', cap=9000, required=False, meaning='DST-rule zones, ALL years and ALL rules: real search and real forward lookup over abstract rule-day instants constrained by the contracts K1-K4 (discharged in C04), interleaving pattern assumed, known-finding role F2 (tie years) excluded: same assertions as the table harnesses'))
 
